@@ -198,7 +198,7 @@ class Harness:
 
     def run(self, lines):
         with ThreadPoolExecutor(max_workers=6) as ex:
-            return list(ex.map(self.one, lines))
+            return list(ex.map(rig.guarded(self.one, [self.squid]), lines))
 
     def close(self):
         self.squid.stop()
